@@ -462,6 +462,41 @@ impl ProcessOutput {
         }
     }
 }
+/// Verification hooks (only with `--cfg sccache_verif`): constructors for the
+/// wire types whose fields are private, so an external harness can script a
+/// `dist::Client`.
+#[cfg(sccache_verif)]
+impl ProcessOutput {
+    pub fn verif_new(code: i32, stdout: Vec<u8>, stderr: Vec<u8>) -> Self {
+        Self {
+            code,
+            stdout,
+            stderr,
+        }
+    }
+    pub fn verif_code(&self) -> i32 {
+        self.code
+    }
+}
+#[cfg(all(sccache_verif, feature = "dist-client"))]
+impl OutputData {
+    /// Same as `try_from_reader` (which is only compiled for the server / tests).
+    pub fn verif_try_from_reader<R: Read>(r: R) -> io::Result<Self> {
+        use flate2::read::ZlibEncoder as ZlibReadEncoder;
+        use flate2::Compression;
+        let mut compressor = ZlibReadEncoder::new(r, Compression::fast());
+        let mut res = vec![];
+        io::copy(&mut compressor, &mut res)?;
+        Ok(OutputData(res, compressor.total_in()))
+    }
+    /// Arbitrary wire content: compressed bytes and declared uncompressed length.
+    pub fn verif_raw(compressed: Vec<u8>, declared_len: u64) -> Self {
+        OutputData(compressed, declared_len)
+    }
+    pub fn verif_compressed(&self) -> &[u8] {
+        &self.0
+    }
+}
 #[cfg(unix)]
 use std::os::unix::process::ExitStatusExt;
 #[cfg(windows)]
